@@ -155,7 +155,7 @@ theorem block_pixel_rows (img : Img) (x y : Nat) (hy : y < ceilDiv img.h 2) :
 
 /-- Half-block and full-block images use this mapping with the cell functions of `Props.C20`
     (`opaque_exact_*`, `transparent_default*`, `half_block_table` say what a cell is for its two pixels). -/
-theorem block_cells_are : halfCells = blockCells halfCell ∧ fullCells = blockCells fullCell := ⟨rfl, rfl⟩
+theorem block_cells_are : halfCells = blockCells halfCell ∧ fullCells = blockCellsWith .topIfMissing fullCell := ⟨rfl, rfl⟩
 
 /-! ## Resized images: the scaler as a parameter with a stated hypothesis -/
 
